@@ -5,8 +5,8 @@ import json, os
 cps = lambda s: [ord(c) for c in s]
 VERIF = os.path.dirname(os.path.dirname(os.path.abspath(__file__)))
 
-# prefixes: expressions that evaluate without error on any document, followed by a pipe
-prefixes = ["", "@ | ", "\"é€\" | ", "a\n|\n", "'\U0001F600é' |\n  ", "length(`[1]`) | ", "[@, `1`][0] |\n\"é\"\n| ",
+# prefixes: expressions that evaluate without error to a NON-NULL value on the document {"a": [1, 2]}, followed by a pipe
+prefixes = ["", "@ | ", "`\"é€\"` | ", "a\n|\n", "'\U0001F600é' |\n  ", "length(`[1]`) | ", "[@, `1`][0] |\n'é'\n| ",
             "not_null(`null`, length('éé'))\n| "]
 # sites: name, what precedes the failing call inside the form, the call name, the text from "(" to the end of the form,
 # expected kind class, where the error must point ("call": the "(" of `call`)
